@@ -273,6 +273,9 @@ def run(ctx):
     from . import c02 as _c02
     from .shared import RuleProxy as _RP4
     ctx.attempt(_c02.r21, _RP4(ctx, "R-4.10", " - the ensemble that has just become idle is credited 0 instead of its share for this step: rows in the data file plus live weights no longer add up to the number of idle steps"))
+    ctx.rule("R-4.11", "the busy set that protects in-flight paths from the re-sort and from being credited weight is the whole set (every path of every job; shared with C03 R-3.10)", floor=2)
+    from .shared import whole_busy_set
+    ctx.attempt(whole_busy_set, ctx, "R-4.11", " (its weights are then recorded while busy, and the idle path that took its slot is overwritten without being archived)")
     ctx.attempt(r41, ctx)
     ctx.attempt(r42, ctx)
     ctx.attempt(r43, ctx)
@@ -286,6 +289,8 @@ def run(ctx):
 
 
 VARIANTS = [
+    B("c04-resort-protects-one-path-per-job", REPEX, "            locks = self.locked_paths()\n            zero_idx", "            locks = [int(pnums[0]) for _, pnums in self.locked]\n            zero_idx", "R-4.11", control=True, why="seeded C04_i"),
+    K("c04-keep-resort-busy-set-from-record", REPEX, "            locks = self.locked_paths()\n            zero_idx", "            locks = [int(pn) for _, pnums in self.locked for pn in pnums]\n            zero_idx", why="every path of every job: same set"),
     B("c04-rejected-job-freed-without-invalidation", REPEX, "            self.add_traj(ens_num, out_traj, valid=out_traj.weights)\n\n        # record weights", "            if out_traj.path_number == pn_old:\n                self._locks[ens_num + self._offset] = 0\n            else:\n                self.add_traj(ens_num, out_traj, valid=out_traj.weights)\n\n        # record weights", "R-4.10", control=True, why="seeded C04_h"),
     B("c04-path-number-by-truthiness", REPEX, '            if out_traj.path_number is None or md_items["status"] == "ACC":', '            if not out_traj.path_number or md_items["status"] == "ACC":', "R-4.9", control=True, why="seeded C04_g"),
     B("c04-data-rows-buffered-handle", REPEX, '    with open(state.data_file, "a") as fp:\n        for pn in pn_archive:', '    fp = state.__dict__.setdefault("_data_fp", open(state.data_file, "a"))\n    if True:\n        for pn in pn_archive:', "R-4.8", control=True, why="seeded C04_f / C08_d (handle kept open between steps)"),
